@@ -231,7 +231,14 @@ class ImageWriter:
             data = image.stream.get_data()
             i = 0
             for y in range(height):
-                bmp.write_line(y, data[i : i + bytes_per_line])
+                line = data[i : i + bytes_per_line]
+                if bits == 24:
+                    # PDF samples are R, G, B; BMP stores each pixel as B, G, R
+                    n = len(line) // 3 * 3
+                    bgr = bytearray(line)
+                    bgr[0:n:3], bgr[2:n:3] = line[2:n:3], line[0:n:3]
+                    line = bytes(bgr)
+                bmp.write_line(y, line)
                 i += bytes_per_line
         return name
 
